@@ -68,10 +68,10 @@ class Chunk:
         if not isinstance(self.data, np.ndarray):
             raise ValueError(f"Attempt to create chunk {self} with data that isn't a numpy array")
         expected_dtype = strax.remove_titles_from_dtype(dtype)
-        got_dtype = strax.remove_titles_from_dtype(dtype)
+        got_dtype = strax.remove_titles_from_dtype(self.data.dtype)
         if expected_dtype != got_dtype:
             raise ValueError(
-                f"Attempt to create chunk {self} with data of {dtype}, should be {expected_dtype}"
+                f"Attempt to create chunk {self} with data of {got_dtype}, should be {expected_dtype}"
             )
         if self.start < 0:
             raise ValueError(f"Attempt to create chunk {self} with negative start time")
